@@ -7,6 +7,9 @@ cfgs = {}
 for p in sorted(glob.glob(os.path.join(ROOT, "checks", "C*.json"))):
     c = json.load(open(p))
     cfgs[c["id"]] = c
+ready_path = os.path.join(ROOT, "checks", "READY")
+ready = set(open(ready_path).read().split()) if os.path.exists(ready_path) else set(cfgs)
+cfgs = {k: v for k, v in cfgs.items() if k in ready}
 na_path = os.path.join(ROOT, "checks", "not_applicable.json")
 na = json.load(open(na_path)) if os.path.exists(na_path) else {}
 try:
